@@ -41,14 +41,13 @@ def rlist_index_consistent(self):
     '''The reverse index of an RList mirrors the sequence.'''
     _cnt('RList.index')
     try:
-        seq, index = self._list, self._index
+        seq, index = self._seq, self._index
     except AttributeError:
         EVALS['RList.index.not_evaluated'] = 1
         return True
     expect = {}
     for pos, item in enumerate(seq):
-        expect.setdefault(self._key(item) if hasattr(self, '_key')
-                          else item, []).append(pos)
+        expect.setdefault(self._key(item), []).append(pos)
     try:
         got = {key: sorted(val) for key, val in index.items() if val}
     except TypeError:
@@ -80,6 +79,10 @@ def install(which):
             from valjean.eponine.dataset import Dataset
             icontract.invariant(dataset_well_formed,
                                 error=InvariantBroken)(Dataset)
+        elif name == 'RList':
+            from valjean.cosette.rlist import RList
+            icontract.invariant(rlist_index_consistent,
+                                error=InvariantBroken)(RList)
         elif name == 'TableTemplate':
             from valjean.javert.templates import TableTemplate
             icontract.invariant(tabletemplate_aligned,
